@@ -86,8 +86,20 @@ func storeKindOf(w *World) (*storeKind, error) {
 			k.FlushOne = fn
 		case creates > 0 && writesTo > 0 && takesIdx:
 			k.WriteSeg = fn
-		case dels > 0:
-			k.Compact = fn
+		case dels > 0 && k.Compact == nil:
+			k.Compact = fn // provisional: refined below
+		}
+	}
+	// the compaction routine is the store method that writes a merged segment through WriteSeg (its swap phase may live
+	// in a helper of its own)
+	if k.WriteSeg != nil {
+		for _, fn := range w.Funcs {
+			if fn.Signature.Recv() == nil || !types.Identical(fn.Signature.Recv().Type(), k.T) || fn == k.WriteSeg {
+				continue
+			}
+			if len(callsIn(fn, func(cc *ssa.CallCommon) bool { return staticCallee(cc) == k.WriteSeg })) > 0 {
+				k.Compact = fn
+			}
 		}
 	}
 	if k.FlushOne != nil {
@@ -298,10 +310,7 @@ func ruleFlushOrdering(r *Run, rule string, k *storeKind) {
 		call, ok := in.(*ssa.Call)
 		return ok && strings.HasSuffix(calleeName(call.Common()), "(*"+cometPath+".segmentManager).add")
 	}
-	esc := reachAvoid(fo, nil, func(in ssa.Instruction) bool {
-		ret, ok := in.(*ssa.Return)
-		return ok && classifyErr(ret) != ErrNonNil
-	}, isReg)
+	esc := successEscapesWrap(fo, isReg)
 	r.Check(esc == nil, rule, "flush:registers", w.Pos(fo.Pos())+" "+w.Name(fo), "every success return of the single-memtable flush follows segmentManager.add", "a success return is reachable without registering the segment")
 	var wt ssa.Instruction
 	allInstrs(fo, func(in ssa.Instruction) {
@@ -432,40 +441,71 @@ func ruleCompactOrdering(r *Run, p string, k *storeKind) {
 	r.Analysed(name, w.Name(k.WriteSeg))
 	r.Doc(p+".SEQ.compact", "a crash or a concurrent search during compaction loses flushed data (old segments gone before the new one is durable and registered)")
 	r.Doc(p+".MERGE", "compaction deletes segments whose documents never reached the merged segment")
-	var write, add, rem, del []ssa.Instruction
+	// a step is an instruction of the compaction function, or of a method of the store it calls (one level: the swap
+	// phase extracted into a helper); `via` is then the call site in the compaction function
+	type step struct {
+		via ssa.Instruction
+		in  ssa.Instruction
+	}
+	var write, add, rem, del []step
 	var getIdx []*ssa.Call
-	allInstrs(fn, func(in ssa.Instruction) {
-		call, ok := in.(*ssa.Call)
-		if !ok {
-			return
-		}
-		n := calleeName(call.Common())
+	var collect func(g *ssa.Function, via ssa.Instruction)
+	collect = func(g *ssa.Function, via ssa.Instruction) {
+		allInstrs(g, func(in ssa.Instruction) {
+			call, ok := in.(*ssa.Call)
+			if !ok {
+				return
+			}
+			n := calleeName(call.Common())
+			callee := staticCallee(call.Common())
+			switch {
+			case callee == k.WriteSeg:
+				write = append(write, step{via, in})
+			case strings.HasSuffix(n, "(*"+cometPath+".segmentManager).add"):
+				add = append(add, step{via, in})
+			case strings.HasSuffix(n, "(*"+cometPath+".segmentManager).remove"):
+				rem = append(rem, step{via, in})
+			case strings.HasSuffix(n, ".deleteSegment"):
+				del = append(del, step{via, in})
+			case callee == k.GetIndex:
+				if via == nil {
+					getIdx = append(getIdx, call)
+				}
+			case via == nil && callee != nil && callee != fn && callee.Pkg == w.SPkg && callee.Signature.Recv() != nil &&
+				types.Identical(callee.Signature.Recv().Type(), k.T):
+				collect(callee, in)
+				r.Analysed(w.Name(callee))
+			}
+		})
+	}
+	collect(fn, nil)
+	// a ≺ b on every execution
+	before := func(a, b step) bool {
 		switch {
-		case staticCallee(call.Common()) == k.WriteSeg:
-			write = append(write, in)
-		case strings.HasSuffix(n, "(*"+cometPath+".segmentManager).add"):
-			add = append(add, in)
-		case strings.HasSuffix(n, "(*"+cometPath+".segmentManager).remove"):
-			rem = append(rem, in)
-		case strings.HasSuffix(n, ".deleteSegment"):
-			del = append(del, in)
-		case staticCallee(call.Common()) == k.GetIndex:
-			getIdx = append(getIdx, call)
+		case a.via == nil && b.via == nil:
+			return domInstr(a.in, b.in)
+		case a.via == nil:
+			return domInstr(a.in, b.via)
+		case b.via == nil:
+			return domInstr(a.via, b.in)
+		case a.via == b.via:
+			return domInstr(a.in, b.in)
 		}
-	})
+		return domInstr(a.via, b.via)
+	}
 	site := w.Pos(fn.Pos()) + " " + name
 	if len(write) != 1 || len(add) != 1 || len(rem) == 0 || len(del) == 0 {
 		r.Bad(p+".SEQ.compact", "compact:steps", site, fmt.Sprintf("compaction steps not found in the expected form: write=%d register(add)=%d unregister(remove)=%d delete=%d", len(write), len(add), len(rem), len(del)))
 	} else {
-		ok := domInstr(write[0], add[0])
+		ok := before(write[0], add[0])
 		for _, x := range rem {
-			ok = ok && domInstr(add[0], x)
+			ok = ok && before(add[0], x)
 		}
 		for _, x := range del {
-			ok = ok && domInstr(add[0], x) && domInstr(write[0], x)
+			ok = ok && before(add[0], x) && before(write[0], x)
 			okRem := false
 			for _, y := range rem {
-				if domInstr(y, x) {
+				if before(y, x) {
 					okRem = true
 				}
 			}
@@ -474,17 +514,24 @@ func ruleCompactOrdering(r *Run, p string, k *storeKind) {
 		r.Check(ok, p+".SEQ.compact", "compact:order", site, "write merged segment ≺ register it ≺ unregister inputs ≺ delete input files", "compaction steps are not ordered write ≺ register ≺ unregister ≺ delete")
 		// the write's error is checked before registration
 		checked := false
-		for _, ref := range *write[0].(*ssa.Call).Referrers() {
+		for _, ref := range *write[0].in.(*ssa.Call).Referrers() {
 			if _, ok := ref.(*ssa.BinOp); ok {
 				checked = true
 			}
 		}
-		r.Check(checked, p+".SEQ.compact", "compact:write-checked", w.InstrPos(write[0])+" "+name, "a failed write of the merged segment aborts the compaction", "the error of writing the merged segment is ignored")
+		r.Check(checked, p+".SEQ.compact", "compact:write-checked", w.InstrPos(write[0].in)+" "+name, "a failed write of the merged segment aborts the compaction", "the error of writing the merged segment is ignored")
 		// removed / deleted ids are those of the input segments
 		c := NewCanon(w)
 		okIDs := true
-		for _, x := range append(rem, del...) {
-			if s := c.S(x.(*ssa.Call).Call.Args[1]); s != "P1[range].id" {
+		for _, x := range append(append([]step{}, rem...), del...) {
+			s := c.S(x.in.(*ssa.Call).Call.Args[1])
+			if x.via != nil {
+				// callee-relative name → name at the call site
+				if t, ok := translatePath(c, s, x.via.(*ssa.Call).Call.Args, nil); ok {
+					s = t
+				}
+			}
+			if s != "P1[range].id" {
 				okIDs = false
 			}
 		}
